@@ -59,10 +59,16 @@ func (w *treeWidget) Draw(vxfw.DrawContext) (vxfw.Surface, error) {
 }
 
 // decodeFrame: the screen a terminal shows after receiving b on a blank cols x rows screen
-func decodeFrame(b []byte, cols, rows int) [][]int {
+func decodeFrame(b []byte, cols, rows int) [][]int { return decodeFrameFrom(b, cols, rows, 0) }
+
+// decodeFrameFrom: the same on a screen that shows [init] in every cell
+func decodeFrameFrom(b []byte, cols, rows int, init int) [][]int {
 	grid := make([][]int, rows)
 	for i := range grid {
 		grid[i] = make([]int, cols)
+		for j := range grid[i] {
+			grid[i][j] = init
+		}
 	}
 	row, col := 0, 0
 	for i := 0; i < len(b); {
@@ -220,6 +226,286 @@ func apprunStream() *hx.Stream {
 			continue
 		}
 		apprunCase(s, cols, rows, t, "shaped")
+	}
+	return s
+}
+
+// ---------------------------------------------------------------- apphist stream
+
+// apphist stream: ONE vxfw.App.Run during which the terminal is resized several times (shrink
+// then grow, grow then shrink, the same size again, one axis each way); after every resize a
+// frame is painted and the whole terminal screen is compared with the model, whose window is
+// the CURRENT terminal size at each frame.  The root widget returns, at step k, the prepared
+// tree of step k.  The terminal is resized the way a real one reports it: the fake console's
+// size changes and the in-band size report CSI 48 ; rows ; cols ; ypix ; xpix t arrives on its
+// input.  The screen is kept across frames the way a terminal keeps it (Vaxis repaints only
+// what changed while the size stays the same, and everything after the size changed).
+
+type histStep struct {
+	Cols, Rows int
+	T          *tree
+}
+
+type stepEv struct{ k int }
+
+type drawNote struct{ k, w, h int }
+
+type histWidget struct {
+	steps   []histStep
+	fc      *hx.FakeConsole
+	cur     int // step whose tree Draw returns; written between frames on App.Run's goroutine
+	notes   chan drawNote
+	pending []byte
+	term    [][]int // the terminal's screen
+	screens [][][]int
+}
+
+// absorb: the terminal (of the size of step k) receives what was written since the last call
+func (w *histWidget) absorb(k int) {
+	b := w.fc.Take()
+	st := w.steps[k]
+	if len(w.term) != st.Rows || (st.Rows > 0 && len(w.term[0]) != st.Cols) {
+		w.term = nil // the size changed: Vaxis repaints every cell
+	}
+	w.term = applyFrame(w.term, b, st.Cols, st.Rows)
+	snap := make([][]int, len(w.term))
+	for i, r := range w.term {
+		snap[i] = append([]int{}, r...)
+	}
+	w.screens = append(w.screens, snap)
+}
+
+func (w *histWidget) HandleEvent(ev vaxis.Event, _ vxfw.EventPhase) (vxfw.Command, error) {
+	e, ok := ev.(stepEv)
+	if !ok {
+		return nil, nil
+	}
+	// events are handled between frames: everything the frames of step k-1 wrote is in the console
+	if e.k > 0 {
+		w.absorb(e.k - 1)
+	}
+	if e.k >= len(w.steps) {
+		return vxfw.QuitCmd{}, nil
+	}
+	w.cur = e.k
+	st := w.steps[e.k]
+	w.fc.SetSize(st.Rows, st.Cols)
+	w.fc.InjectString(fmt.Sprintf("\x1b[48;%d;%d;%d;%dt", st.Rows, st.Cols, st.Rows*16, st.Cols*8))
+	return nil, nil
+}
+
+func (w *histWidget) Draw(ctx vxfw.DrawContext) (vxfw.Surface, error) {
+	k := w.cur
+	if k < 0 {
+		k = 0
+	}
+	select {
+	case w.notes <- drawNote{w.cur, int(ctx.Max.Width), int(ctx.Max.Height)}:
+	default:
+	}
+	return w.steps[k].T.appSurface(w), nil
+}
+
+// applyFrame: decodeFrame on a screen that already shows something (nil = blank)
+func applyFrame(grid [][]int, b []byte, cols, rows int) [][]int {
+	fresh := decodeFrameMarked(b, cols, rows)
+	if grid == nil {
+		grid = make([][]int, rows)
+		for i := range grid {
+			grid[i] = make([]int, cols)
+		}
+	}
+	for y := range fresh {
+		for x, v := range fresh[y] {
+			if v >= 0 {
+				grid[y][x] = v
+			}
+		}
+	}
+	return grid
+}
+
+// decodeFrameMarked: as decodeFrame, but cells the bytes did not write are -1
+func decodeFrameMarked(b []byte, cols, rows int) [][]int { return decodeFrameFrom(b, cols, rows, -1) }
+
+func apphistCase(s *hx.Stream, steps []histStep, tags ...string) {
+	fc := hx.NewFakeConsole(hx.ProfileFromMask(0, steps[0].Rows, steps[0].Cols))
+	app, err := vxfw.NewApp(vaxis.Options{WithConsole: fc, NoSignals: true})
+	if err != nil {
+		panic(err)
+	}
+	fc.Take()
+	w := &histWidget{steps: steps, fc: fc, cur: -1, notes: make(chan drawNote, 4096)}
+	done := make(chan error, 1)
+	out := 0
+	go func() {
+		var rerr error
+		panicked, msg := hx.Catch(func() { rerr = app.Run(w) })
+		if panicked {
+			rerr = fmt.Errorf("panic: %s", msg)
+		}
+		done <- rerr
+	}()
+	finished := false
+	for k := 0; k <= len(steps) && !finished; k++ {
+		app.PostEvent(stepEv{k})
+		if k == len(steps) {
+			break
+		}
+		// a Draw of step k's tree with the maximum = step k's terminal size: layout, render and
+		// vx.Render of that frame happen before the next event is handled
+		deadline := time.After(20 * time.Second)
+	wait:
+		for {
+			select {
+			case n := <-w.notes:
+				if n.k == k && n.w == steps[k].Cols && n.h == steps[k].Rows {
+					break wait
+				}
+			case err := <-done:
+				finished = true
+				if err != nil {
+					out = 1
+				}
+				break wait
+			case <-deadline:
+				panic(fmt.Sprintf("apphist: App.Run did not draw a frame of step %d (%dx%d)", k, steps[k].Cols, steps[k].Rows))
+			}
+		}
+	}
+	if !finished {
+		select {
+		case err := <-done:
+			if err != nil {
+				out = 1
+			}
+		case <-time.After(20 * time.Second):
+			panic("apphist: App.Run did not quit")
+		}
+	}
+	if out == 0 && len(w.screens) != len(steps) {
+		out = 1
+	}
+	var ins, scrs []string
+	var jsSteps []interface{}
+	kids := false
+	for k, st := range steps {
+		ins = append(ins, hx.Tuple(hx.Z(int64(st.Cols)), hx.Z(int64(st.Rows)), st.T.coq()))
+		js := map[string]interface{}{"cols": st.Cols, "rows": st.Rows, "tree": st.T.json()}
+		if out == 0 {
+			gs := make([]string, len(w.screens[k]))
+			for i, r := range w.screens[k] {
+				gs[i] = hx.IntList(r)
+			}
+			scrs = append(scrs, hx.List(gs))
+			js["screen"] = w.screens[k]
+		}
+		jsSteps = append(jsSteps, js)
+		if st.T.nodes() > 1 {
+			kids = true
+		}
+	}
+	term := hx.Tuple(hx.List(ins), hx.Tuple(hx.Z(int64(out)), hx.List(scrs)))
+	js := map[string]interface{}{"stream": "apphist", "what": "one vxfw.App.Run; the terminal is resized to the size of each step in turn (step 0 = the initial size) and the root widget returns the step's tree; screen = the terminal after the frame of that step",
+		"steps": jsSteps, "outcome": out}
+	grewAfterShrink, shrunk, resized := false, false, false
+	for k := 1; k < len(steps); k++ {
+		a, b := steps[k-1], steps[k]
+		switch {
+		case b.Cols == a.Cols && b.Rows == a.Rows:
+			tags = append(tags, "step=same")
+		case b.Cols >= a.Cols && b.Rows >= a.Rows:
+			tags = append(tags, "step=grow")
+		case b.Cols <= a.Cols && b.Rows <= a.Rows:
+			tags = append(tags, "step=shrink")
+		default:
+			tags = append(tags, "step=mixed")
+		}
+		if b.Cols != a.Cols || b.Rows != a.Rows {
+			resized = true
+		}
+		if (b.Cols > a.Cols || b.Rows > a.Rows) && shrunk {
+			grewAfterShrink = true
+		}
+		if b.Cols < a.Cols || b.Rows < a.Rows {
+			shrunk = true
+		}
+	}
+	if grewAfterShrink {
+		tags = append(tags, "grows-after-shrinking")
+	}
+	tags = append(tags, fmt.Sprintf("steps=%d", len(steps)))
+	_ = kids
+	s.Add(term, js, resized, tags...)
+}
+
+// a tree for a terminal of the given size: the root fills it exactly (what a root widget that
+// takes all the space it is offered returns), or is smaller / larger / shaped
+func histTree(cols, rows int) *tree {
+	switch cfg.Rand.Intn(3) {
+	case 0:
+		return genShaped(1, cols, rows)
+	case 1:
+		inner := []kid{{Col: 0, Row: rows - 1, T: filled(3, 2)}, {Col: cols - 2, Row: 0, Z: 1, T: filled(2, 2)}}
+		return wrapperTree(cols, rows, cfg.Rand.Intn(2), inner)
+	default:
+		return genShaped(1+cfg.Rand.Intn(2), genRootSize(cols), genRootSize(rows))
+	}
+}
+
+func apphistStream() *hx.Stream {
+	s := hx.NewStream("apphist", "model.Surface", "apphist_input * apphist_obs", "c14_apphist_mismatches", "c14_apphist_violations")
+	s.ShardMax = 40
+	mk := func(sizes [][2]int, tags ...string) {
+		nextID = 0
+		var steps []histStep
+		for _, z := range sizes {
+			steps = append(steps, histStep{z[0], z[1], histTree(z[0], z[1])})
+		}
+		if nextID > idMax {
+			return
+		}
+		apphistCase(s, steps, tags...)
+	}
+	// directed histories: shrink then grow (beyond the start), grow then shrink, the same size
+	// again, one axis each way, grow only, shrink only, back to the first size
+	for _, h := range [][][2]int{
+		{{10, 4}, {6, 3}, {14, 6}},
+		{{10, 4}, {14, 6}, {6, 3}},
+		{{8, 4}, {8, 4}, {8, 4}},
+		{{8, 4}, {12, 4}, {12, 6}},
+		{{12, 6}, {8, 6}, {8, 3}},
+		{{9, 5}, {5, 5}, {9, 5}},
+		{{9, 5}, {9, 2}, {9, 5}},
+		{{6, 5}, {11, 3}, {5, 6}},
+		{{7, 3}, {8, 3}, {7, 3}, {9, 4}},
+		{{5, 2}, {5, 2}, {13, 6}, {13, 6}, {4, 2}},
+	} {
+		mk(h, "directed")
+	}
+	n := 14
+	if cfg.Thorough() {
+		n = 400
+	}
+	for i := 0; i < n; i++ {
+		k := 2 + cfg.Rand.Intn(4)
+		sizes := make([][2]int, k)
+		for j := range sizes {
+			switch {
+			case j > 0 && cfg.Rand.Intn(5) == 0: // the same size again
+				sizes[j] = sizes[j-1]
+			case j > 0 && cfg.Rand.Intn(3) == 0: // one axis only
+				sizes[j] = sizes[j-1]
+				if cfg.Rand.Intn(2) == 0 {
+					sizes[j][0] = 2 + cfg.Rand.Intn(12)
+				} else {
+					sizes[j][1] = 2 + cfg.Rand.Intn(5)
+				}
+			default:
+				sizes[j] = [2]int{2 + cfg.Rand.Intn(12), 2 + cfg.Rand.Intn(5)}
+			}
+		}
+		mk(sizes, "random")
 	}
 	return s
 }
